@@ -199,16 +199,23 @@ def main(argv=None):
 
 def finish(ctx, mod):
     known = [k for k in load_known() if k.get("property") == ctx.prop]
-    open_known = {k["signature"]: k for k in known if k.get("status") == "open"}
+    open_known = {}
+    for k in known:
+        if k.get("status") == "open":
+            for sg in ([k["signature"]] if "signature" in k else []) + list(k.get("signatures", [])):
+                open_known[sg] = k
     lines = []
     rc = 0
     seen_known = set()
+    seen_ids = set()
     unlisted = []
     for sig, what, replay in ctx.oracle_fail:
         if sig in open_known:
             if sig not in seen_known:
                 seen_known.add(sig)
-                lines.append("KNOWN-FINDING: property=%s %s [%s]" % (ctx.prop, open_known[sig]["what"], sig))
+                if open_known[sig]["id"] not in seen_ids:
+                    seen_ids.add(open_known[sig]["id"])
+                    lines.append("KNOWN-FINDING: property=%s %s [%s]" % (ctx.prop, open_known[sig]["what"], open_known[sig]["id"]))
         else:
             unlisted.append((sig, what, replay))
     nviol = 0
